@@ -10,7 +10,8 @@
 // through the product of their alphabets (t = 3 quick, 4 thorough), the all-extreme value;
 // the full product instead when the type has <= 6 fields (or a small product).
 // Oracle per value x: Marshal(x) twice and Marshal of an independently rebuilt x give the
-// same bytes; len == x.Size(); Unmarshal(bytes) succeeds into y; x.Equal(y) && y.Equal(x)
+// same bytes; len == x.Size(); Unmarshal(bytes) succeeds into y; x.Equal(y) && y.Equal(x);
+// Unmarshal(bytes) into a reused object z (every field preset to its last alphabet value) gives x too
 // (generated Equal); Marshal(y) == bytes.
 package main
 
@@ -105,6 +106,21 @@ func checkOne(t reflect.Type, fields []fieldGen, choice []int) (clause, why stri
 		b3, err := gogo.Marshal(y)
 		if err != nil || !bytes.Equal(b1, b3) {
 			clause, why = "remarshal-differs", fmt.Sprintf("Marshal(Unmarshal(bytes)) = %x (err %v)", b3, err)
+			return
+		}
+		// decoding into an object that is being reused (the node reuses batches, headers and
+		// records): the destination starts with every field at its last alphabet value
+		full := make([]int, len(fields))
+		for i, f := range fields {
+			full[i] = len(f.alpha) - 1
+		}
+		z := build(t, fields, full)
+		if err := gogo.Unmarshal(z, b1); err != nil {
+			clause, why = "unmarshal-into-used-object-error", err.Error()
+			return
+		}
+		if !x.Equal(z) || !z.Equal(x) {
+			clause, why = "roundtrip-into-used-object-not-equal", fmt.Sprintf("decoded %+v", z)
 			return
 		}
 	}); p != "" {
@@ -271,7 +287,7 @@ func main() {
 			"x values built by reflection: bool{f,t} uint{0,1,128,max} int{0,1,-1,min,max} float{0,1,-1.5,smallest,max,+Inf} bytes{nil,{0},{1,2,3}} string{\"\",a,é} "+
 			"big.Int{nil,0,1,-1,2^70} repeated{nil,[last],[first,last]} nested{zero,one field set,all extreme}(nullable: +nil) to depth 2, oneof{unset, each member x its alphabet}; "+
 			"per type: default, each field through its alphabet, all %d-subsets of fields through the product of their non-default values, the all-extreme value; full product when <=6 fields or product <= %d. "+
-			"Non-trivial = (type, field) pairs driven through a non-default value", scanned, root, excluded, t, limit)
+			"each value is decoded both into a fresh object and into a reused one whose fields all hold their last alphabet value. Non-trivial = (type, field) pairs driven through a non-default value", scanned, root, excluded, t, limit)
 		c.Bound = fmt.Sprintf("%d-wise field coverage per type (full product for small types), nesting depth 2", t)
 		c.Assumptions = []string{
 			"nil and empty slices are one value (proto3 semantics; the generated Equal agrees)",
